@@ -20,7 +20,10 @@ None == 0
 EmptyWS == [k \in Keys |-> 0]
 
 \* s = [tx, multi, committed, txs : Seq([ws, aborted, done]), log, fl, used]
-Handle0 == [tx |-> None, multi |-> FALSE, committed |-> [k \in Keys |-> 0], txs |-> <<>>, log |-> <<>>, fl |-> <<>>, used |-> 0, panic |-> FALSE]
+Handle0 == [tx |-> None, multi |-> FALSE, committed |-> [k \in Keys |-> 0], txs |-> <<>>, log |-> <<>>, fl |-> <<>>, used |-> 0, panic |-> FALSE, soft |-> FALSE]
+\* `soft`: the statements that fail in this operation fail on the client side (argument encoding, a context that has already
+\* expired): the server never saw them and the transaction is NOT poisoned - a COMMIT issued afterwards would succeed and make
+\* the earlier writes of the transaction durable.  Put and Get must end the transaction with ROLLBACK either way.
 \* ---- a small sequential "program counter free" encoding: each public op is evaluated as a pure function
 \* over a server/handle record with an explicit list of fault decisions (one BOOLEAN per primitive call, consumed in order)
 
@@ -70,7 +73,7 @@ OpPut(s, k, v) ==
   ELSE LET s1 == st.s  t == s1.txs[s1.tx] IN
        IF t.done \/ t.aborted THEN R(s1, "err", 0)
        \* a failed statement ends the transaction, as Get does (the transaction was left open before the repair)
-       ELSE IF Fail(s1) THEN R(Abort_([Tick(s1) EXCEPT !.txs[s1.tx].aborted = TRUE, !.log = Append(@, "FAIL:exec")]), "err", 0)
+       ELSE IF Fail(s1) THEN R(Abort_([Tick(s1) EXCEPT !.txs[s1.tx].aborted = ~s1.soft, !.log = Append(@, "FAIL:exec")]), "err", 0)
        ELSE LET s2 == [Tick(s1) EXCEPT !.txs[s1.tx].ws[k] = v]
                 c == StopSingle(s2) IN R(c.s, IF c.err THEN "err" ELSE "ok", 0)
 OpGet(s, k) ==
@@ -78,14 +81,14 @@ OpGet(s, k) ==
   IF st.err THEN R(st.s, "err", 0)
   ELSE LET s1 == st.s  t == s1.txs[s1.tx] IN
        IF t.done \/ t.aborted THEN R(Abort_(s1), "err", 0)
-       ELSE IF Fail(s1) THEN R(Abort_([Tick(s1) EXCEPT !.txs[s1.tx].aborted = TRUE, !.log = Append(@, "FAIL:query")]), "err", 0)
+       ELSE IF Fail(s1) THEN R(Abort_([Tick(s1) EXCEPT !.txs[s1.tx].aborted = ~s1.soft, !.log = Append(@, "FAIL:query")]), "err", 0)
        ELSE LET s2 == Tick(s1)
                 v == IF t.ws[k] # 0 THEN t.ws[k] ELSE s2.committed[k] IN
             IF v = 0 THEN R(Abort_(s2), "notfound", 0)
             ELSE LET c == StopSingle(s2) IN R(c.s, IF c.err THEN "err" ELSE "ok", v)
 
 
-Apply(s, op) == LET s0 == [s EXCEPT !.fl = op.fl, !.used = 0, !.log = <<>>] IN
+Apply(s, op) == LET s0 == [s EXCEPT !.fl = op.fl, !.used = 0, !.log = <<>>, !.soft = op.soft] IN
                 CASE op.op = "start" -> OpStart(s0)
                   [] op.op = "stop"  -> OpStop(s0)
                   [] op.op = "close" -> OpClose(s0)
@@ -97,12 +100,14 @@ Apply(s, op) == LET s0 == [s EXCEPT !.fl = op.fl, !.used = 0, !.log = <<>>] IN
 (* The oracle: what a keyed map with explicit transactions must contain.   *)
 (* g = [exp (durable), pend (writes of the explicit tx), inx, tainted      *)
 (*      (a statement of the explicit tx failed or a key was not found),    *)
-(*      kf (an explicit transaction has ended on this handle)]             *)
+(*      kf (an explicit transaction has ended on this handle),             *)
+(*      ever (per key: every value that has ever been the acknowledged     *)
+(*      durable one, 0 = absent)]                                          *)
 (***************************************************************************)
-G0 == [exp |-> [k \in Keys |-> 0], pend |-> [k \in Keys |-> 0], inx |-> FALSE, tainted |-> FALSE, kf |-> FALSE]
+G0 == [exp |-> [k \in Keys |-> 0], pend |-> [k \in Keys |-> 0], inx |-> FALSE, tainted |-> FALSE, kf |-> FALSE, ever |-> [k \in Keys |-> {0}]]
 Want(g, k) == IF g.inx /\ g.pend[k] # 0 THEN g.pend[k] ELSE g.exp[k]
 \* op = [op, k, v], res in {"ok","err","notfound","panic"}
-GhostStep(g, op, res) ==
+GhostCore(g, op, res) ==
   CASE op.op = "start" -> IF res = "ok" THEN [g EXCEPT !.inx = TRUE, !.tainted = FALSE, !.pend = [k \in Keys |-> 0]] ELSE g
     [] op.op \in {"stop", "close"} -> IF ~g.inx THEN g
                           ELSE [g EXCEPT !.inx = FALSE, !.kf = TRUE, !.tainted = FALSE, !.pend = [k \in Keys |-> 0],
@@ -112,6 +117,12 @@ GhostStep(g, op, res) ==
                           ELSE (IF res = "ok" THEN [g EXCEPT !.exp[op.k] = op.v] ELSE g)
     [] op.op = "get"   -> IF g.inx /\ res # "ok" THEN [g EXCEPT !.tainted = TRUE] ELSE g
     [] OTHER -> g
+
+\* (a Stop that succeeds acknowledges the successful puts of the explicit transaction also when the oracle has lost track of it -
+\* after a failed statement the handle continues in a new transaction: those values may, not must, be durable)
+GhostStep(g, op, res) == LET g2 == GhostCore(g, op, res) IN
+  [g2 EXCEPT !.ever = [k \in Keys |-> g.ever[k] \cup {g2.exp[k]}
+                                        \cup (IF op.op \in {"stop", "close"} /\ res = "ok" /\ g.inx /\ g.pend[k] # 0 THEN {g.pend[k]} ELSE {})]]
 
 HasFault(log) == \E i \in DOMAIN log : log[i] \in {"FAIL:begin", "FAIL:exec", "FAIL:query", "FAIL:scan", "FAIL:commit"}
 Begins(log) == {i \in DOMAIN log : log[i] = "begin"}
@@ -131,6 +142,9 @@ NoWedgeP(g, op, res, val, log) ==
        [] op.op = "get" -> IF Want(g, op.k) = 0 THEN res = "notfound" ELSE res = "ok" /\ val = Want(g, op.k)
 \* every transaction begun is ended exactly once by the time the handle is idle
 EndedOnceP(gAfter, open) == ~gAfter.inx => open = 0
+\* nothing becomes durable that was never acknowledged: what a fresh handle would read for a key is a value that has at some
+\* point been the acknowledged one (the writes of an explicit transaction count from its successful Stop only)
+NoUnackedDurableP(gAfter, durable) == \A k \in Keys : durable[k] \in gAfter.ever[k]
 \* explicit transaction: Start / Stop / Abort themselves behave (fault-free)
 MultiP(g, op, res, log) ==
   /\ (op.op = "start" /\ ~HasFault(log) /\ ~g.inx) => res = "ok"
